@@ -35,7 +35,7 @@ def job(slot, prop, n, props):
     results = {}
     for p in props:
         t0 = time.time()
-        rc, out = sh("unshare -m -n sh -c '%s VERIF_SEED=%s ./check %s --tier %s'" % (inner, SEED, p, TIER), timeout=3000 if TIER == "quick" else 14000)
+        rc, out = sh("GOCACHE=%s/gocache unshare -m -n sh -c '%s VERIF_SEED=%s ./check %s --tier %s'" % (base, inner, SEED, p, TIER), timeout=3000 if TIER == "quick" else 14000)
         lines = [l for l in out.split("\n") if l.startswith(("VIOLATION", "BROKEN", "FAILING-INPUT", "OK ", "KNOWN-FINDING", "FARM-PATCH"))]
         if rc != 0 and not any(l.startswith("VIOLATION") for l in lines):
             lines.append("FARM-NO-VERDICT rc=%d: %s" % (rc, " ".join(out.split())[-300:]))
@@ -78,4 +78,9 @@ def main():
         for prop, n, res in ex.map(run, jobs):
             print("%s/%s" % (prop, n), {k: (v.get("rc") if isinstance(v, dict) else v) for k, v in res.items()},
                   "no-failing-input" if any("no-failing-input-found" in l for v in res.values() if isinstance(v, dict) for l in v.get("lines", [])) else "", flush=True)
+    # the private copies and their per-slot Go build caches are scratch: remove them (each path-specific
+    # build leaves its own cache entries; an earlier shared cache grew to 83 GB)
+    if os.environ.get("FARM_KEEP") != "1":
+        for s_ in range(j):
+            sh("rm -rf /par/%d/verif /par/%d/repo /par/%d/gocache" % (s_, s_, s_))
 main()
